@@ -687,9 +687,9 @@ func (ps *peerScore) Prune(p peer.ID, topic string) {
 		return
 	}
 
-	// sticky mesh delivery rate failure penalty
+	// sticky mesh delivery rate failure penalty; charged once, when the peer leaves the mesh
 	threshold := ps.params.Topics[topic].MeshMessageDeliveriesThreshold
-	if tstats.meshMessageDeliveriesActive && tstats.meshMessageDeliveries < threshold {
+	if tstats.inMesh && tstats.meshMessageDeliveriesActive && tstats.meshMessageDeliveries < threshold {
 		deficit := threshold - tstats.meshMessageDeliveries
 		tstats.meshFailurePenalty += deficit * deficit
 	}
